@@ -19,7 +19,9 @@ def asindices_contract(interp, args, kwargs, node):
     if isinstance(spec, Seq) or (isinstance(spec, SCell)):
         sp = view_seq(spec)
     else:
-        raise Unsupported('asindices contract is for symbolic-length specs; concrete specs run the real code')
+        # a concrete selection (a name, an index, a literal tuple): run the real function
+        real = interp.load_module('petl.util.base').env.vars['asindices']
+        return interp.call_closure(real, args, kwargs, node)
     ctx = interp.ctx
     if ctx.branch(smt.fresh_bool('asindices_fails'), 'asindices: some field cannot be resolved'):
         raise PyExc('FieldSelectionError', None, interp.where(node) if node is not None else None)
